@@ -23,19 +23,32 @@ package sumdb
 //@   let fromSize := from.Size
 //@   prefer to.Size < 9223372036854775808 && from.Size >= 1 && from.Size <= 8
 //@   requires sdb != nil && sdb.fetcher != nil && len(to.Hash) >= 32
-//@   modifies heap
+//@   modifies heap, n_pt, pt_t, pt_n, thr_n
 //@   ensures[C19.s] err != nil ==> p == nil
-//@   invariant#1 0 <= $i && $i <= len(proof) && r != nil
+//@   // proof wiring (C18 part 2): the empty proof exactly for a zero old size; otherwise one ProveTree(to, from) over a
+//@   // tile reader for the tree (to.Size, to.Hash), and as many hashes returned as ProveTree produced
+//@   ensures[C18.fp] from.Size == 0 ==> err == nil && p != nil && len(p) == 0 && n_pt == old(n_pt)
+//@   ensures[C18.fp] from.Size != 0 && to.Size <= 4611686018427387904 ==> n_pt == old(n_pt) + 1 && pt_t == to.Size && pt_n == from.Size && thr_n == to.Size
+//@   invariant#1 0 <= $i && $i <= len(proof) && r != nil && len(r) == $i
+//@   invariant#1 n_pt == old(n_pt) + 1 && pt_t == to.Size && pt_n == from.Size && thr_n == to.Size
 //@   decreases#1 len(proof) - $i
 
 //@ func FeedLog$2
 //@   returns (b, err)
 //@   requires sdb != nil && sdb.fetcher != nil
+//@   modifies n_gd, gd_paths
 //@   ensures[C19.s] true
 
+// Every tile tlog asks for is fetched from "/" + its reference path (tiles of the reader's height 8, widths 1..256):
+// the invariant pins the request made by each iteration (the most recent one) to the tile of that iteration.
 //@ func (tileReader).ReadTiles
 //@   returns (r, err)
-//@   requires tr.c != nil && tr.c.fetcher != nil
+//@   requires tr.c != nil && tr.c.fetcher != nil && tr.c.height == 8
+//@   opt axioms=none
+//@   modifies n_gd, gd_paths
 //@   ensures[C19.s] err != nil ==> r == nil
-//@   invariant#1 0 <= $i && $i <= len(tiles)
+//@   ensures[C18.rt] err == nil ==> n_gd == old(n_gd) + len(tiles) && len(r) == len(tiles)
+//@   invariant#1 0 <= $i && $i <= len(tiles) && n_gd == old(n_gd) + $i && len(r) == $i
+//@   invariant#1[C18.rt] $i > 0 && tiles[$i - 1].L != -1 && 1 <= tiles[$i - 1].W && tiles[$i - 1].W <= 256 ==>
+//@                   gd_paths[n_gd - 1] == "/" ++ ("tile/" ++ fmt_d(8) ++ "/" ++ fmt_d(tiles[$i - 1].L) ++ "/" ++ pathAcc(tiles[$i - 1].N, fmt_03d(tiles[$i - 1].N % 1000)) ++ (tiles[$i - 1].W != 256 ? ".p/" ++ fmt_d(tiles[$i - 1].W) : ""))
 //@   decreases#1 len(tiles) - $i
